@@ -175,14 +175,34 @@ fn cmd_run(args: &[String]) -> i32 {
             libc::alarm(hang_secs);
         }
         let spec = generate(prop, seed, i, thorough);
-        let o = run_for_prop(prop, &spec, want_hash);
-        if want_hash {
+        let o = run_for_prop(prop, &spec, want_hash || hash_file.is_some());
+        if want_hash || hash_file.is_some() {
             let mut h = 0xcbf2_9ce4_8422_2325u64;
             for l in &o.transcript {
                 for b in l.bytes() {
                     h = (h ^ b as u64).wrapping_mul(0x100_0000_01b3);
                 }
                 h = (h ^ 0xff).wrapping_mul(0x100_0000_01b3);
+            }
+            if !want_hash {
+                // determinism self-test: everything the run produced goes into the hash
+                let mut mixin = |x: u64| h = (h ^ x).wrapping_mul(0x100_0000_01b3);
+                mixin(o.steps as u64);
+                for s in &o.states {
+                    mixin(*s);
+                }
+                for p in &o.probes {
+                    mixin(run::kind_hash(p));
+                }
+                for p in &o.foreign {
+                    mixin(run::kind_hash(p));
+                }
+                for (k, v) in &o.faults {
+                    mixin(run::kind_hash(k) ^ *v);
+                }
+                if let Some(a) = &o.violation {
+                    mixin(run::kind_hash(a.class) ^ a.op_index as u64);
+                }
             }
             if let Some(f) = hash_file.as_mut() {
                 use std::io::Write;
